@@ -5,7 +5,7 @@ import sys, os, shutil, subprocess, tempfile, runpy
 m = runpy.run_path(sys.argv[1])
 d = tempfile.mkdtemp(prefix='mut.', dir='/var/tmp')
 try:
-    shutil.copytree('/repo/mosromgr', os.path.join(d, 'mosromgr'))
+    shutil.copytree(os.path.join(os.environ.get('MUT_BASE', '/repo'), 'mosromgr'), os.path.join(d, 'mosromgr'))
     p = os.path.join(d, 'mosromgr', m['FILE'])
     s = open(p).read()
     s2 = m['mutate'](s)
